@@ -141,4 +141,19 @@ def run(P, ctx):
     clause3(P, res)
     from rules import leftright
     leftright.check(P, res, "C07-4", r"^fibre::<?spmc::ring_buffer", 2)
+    leftright.check_relative(P, res, "C07-5", r"^fibre::<?spmc::ring_buffer", 2)
+    # every receiver gets every value before it is told Disconnected: the spmc instances of the drain-before-Disconnected rule (C04-5), judged for the broadcast ring
+    from rules import c04
+    sub = Result("C07")
+    c04.clause5(P, sub)
+    res.rule("C07-6", "a receiver of the broadcast ring is told Disconnected only after its view is drained: wherever a receive form of spmc::ring_buffer decides Disconnected "
+                      "itself, no path leads from the read of `producer_dropped` to the decision without another look at `head`/the slot (the producer publishes, then "
+                      "drops: `head` is final only once the flag was seen) — the spmc instances of C04-5")
+    k = 0
+    for i in sub.instances:
+        if "spmc::ring_buffer" in i.key:
+            k += 1
+            res.add("C07-6", i.key.split(":", 2)[2], i.status, i.detail, i.witness, i.nontrivial, i.obligations, i.where)
+    if k < 4:
+        res.violated("C07-6", "spmc-disconnect-sites", f"expected >= 4 Disconnected decisions in the spmc receive forms, found {k}")
     return res
